@@ -384,6 +384,30 @@ def nat_csv(h):
             shutil.rmtree(d, ignore_errors=True)
 
 
+def nat_empty_cells_through_results(h):
+    """bounded: an empty cell of a delimited file observed through results() (which casts every row with the final schema) is null,
+    whatever the other columns of the table are -- an all-text table is treated like a table with a numeric column"""
+    import csv, os, tempfile, shutil
+    from dataflows import Flow, load
+    d = tempfile.mkdtemp(prefix='c13e_')
+    try:
+        for label, header, body in (('all-text', ['name', 'note'], [['ann', ''], ['', 'x'], ['bob', 'y']]),
+                                    ('text-and-number', ['name', 'note', 'n'], [['ann', '', '1'], ['', 'x', '2'], ['bob', 'y', '']])):
+            p = os.path.join(d, label + '.csv')
+            with open(p, 'w', newline='', encoding='utf-8') as f:
+                w = csv.writer(f)
+                w.writerow(header)
+                w.writerows(body)
+            for kw in ({}, dict(infer_strategy=load.INFER_STRINGS), dict(infer_strategy=load.INFER_STRINGS, cast_strategy=load.CAST_TO_STRINGS)):
+                got = h.run(lambda: Flow(load(p, **kw)).results()[0][0])
+                want_text = [[(c if c != '' else None) for c in r[:2]] for r in body]
+                ok = got[0] == 'ok' and [[r['name'], r['note']] for r in got[1]] == want_text
+                h.check(ok, 'dataflows/base/datastream_processor.py::DataStreamProcessor.safe_process', (label, sorted(kw)), want_text,
+                        [[r.get('name'), r.get('note')] for r in got[1]] if got[0] == 'ok' else got[:2])
+    finally:
+        shutil.rmtree(d, ignore_errors=True)
+
+
 def nat_cast_on_error(h):
     import csv, os, tempfile, shutil
     from dataflows import Flow, load
@@ -472,6 +496,8 @@ def nat_limits_and_handlers(h):
         shutil.rmtree(d, ignore_errors=True)
 
 
+from contracts.common import lazy_sym, lazy_nat   # noqa: E402
+
 ITEMS = [
     Item('load.limiter', sym_limiter, [('wrappers', nat_wrappers)], P + 'load.py::load.limiter'),
     Item('load.stringer', sym_stringer, [], P + 'load.py::load.stringer'),
@@ -481,6 +507,9 @@ ITEMS = [
     Item('ResourceMatcher', K10.ITEMS[0].symbolic, [], 'dataflows/helpers/resource_matcher.py::ResourceMatcher.match'),
     Item('schema_validator', K14.sym_schema_validator, [], 'dataflows/base/schema_validator.py::schema_validator'),
     Item('headers', sym_rename_duplicate_headers, [('de-duplication', nat_headers), ('collision', nat_headers_finding)], P + 'load.py::load.rename_duplicate_headers'),
-    Item('csv', None, [('fidelity', nat_csv), ('cast-on-error', nat_cast_on_error), ('limits-and-handlers', nat_limits_and_handlers)], P + 'load.py::load'),
+    Item('csv', None, [('fidelity', nat_csv), ('cast-on-error', nat_cast_on_error), ('limits-and-handlers', nat_limits_and_handlers),
+                       ('empty-cells-through-results', nat_empty_cells_through_results)], P + 'load.py::load'),
     Item('recorded-findings', None, [('bounded', KF.nat_findings_c13)], 'dataflows/processors/load.py::load.safe_process_datapackage'),
+    # results() is where the loaded rows are observed: it casts every row of every resource with the final schema
+    Item('driver.safe_process', lazy_sym('base', 'sym_safe_process'), [], 'dataflows/base/datastream_processor.py::DataStreamProcessor.safe_process'),
 ]
